@@ -24,6 +24,7 @@ func checkC03(c *Ctx) {
 	ruleC03G2(c, r)
 	ruleC03V1(c, r)
 	ruleC03V3(c, r)
+	ruleRBCMonotone(c, r, "C03.M1")
 	ruleC02N1(c, r, "C03.N1")
 	t := buildThresholdModel(c)
 	if t == nil {
@@ -219,7 +220,7 @@ func ruleC03V1(c *Ctx, r *rbcModel) {
 			okS := sender != nil && sender == ssa.Value(r.paramFrom)
 			// the message stored for this entry in this context is the parameter m
 			okM := false
-			for _, st := range storesToField([]*ssa.Function{mu.Parent()}, r.fEntryM) {
+			for _, st := range storesToField(deepFuncs(rootOfHelper(mu.Parent())), r.fEntryM) {
 				k := r.receptionKeyOf(st.Addr)
 				if k != nil && sameValue(k, r.receptionKeyOf(mu.Map)) && sc.Resolve(st.Val) == ssa.Value(r.paramM) && r.storeUnconditionalIn(sc, st) {
 					okM = true
@@ -250,12 +251,19 @@ func ruleC03V3Named(c *Ctx, r *rbcModel, rule string) {
 	}
 	for _, h := range r.p2pHandovers {
 		a := h.Common().Args
-		ok := len(a) == 2 && strip(a[0]) == ssa.Value(r.paramM) && strip(a[1]) == ssa.Value(r.paramFrom) && h.Parent() == r.receive
-		// and it is not an acknowledgement
-		ok = ok && hasFact(FactsAt(h.(ssa.Instruction)), func(f Fact) bool {
-			x, isLen := lenOperand(strip(f.X))
-			return f.Op != 0 && isLen && r.isAckDigest(x) && (f.Op == token.LEQ || f.Op == token.EQL) && isZero(f.Y)
-		})
+		ctxs, okC := contextsOf(h.(ssa.Instruction), r.entries, r.fns, 3)
+		ok := okC && len(ctxs) > 0 && len(a) == 2
+		for _, sc := range ctxs {
+			if !ok {
+				break
+			}
+			ok = sc.Resolve(a[0]) == ssa.Value(r.paramM) && sc.Resolve(a[1]) == ssa.Value(r.paramFrom)
+			// and it is not an acknowledgement
+			ok = ok && hasFact(sc.Facts(), func(f Fact) bool {
+				x, isLen := lenOperand(strip(f.X))
+				return f.Op != 0 && isLen && r.isAckDigest(x) && (f.Op == token.LEQ || f.Op == token.EQL) && isZero(f.Y)
+			})
+		}
 		c.Check(ok, rule, FuncName(h.Parent()), "p2p hand-over", r.m.Pos(h.Pos()), "ForwardToBackend(m, from) on the non-ack, non-broadcast arm",
 			"a point-to-point message is not handed over exactly as received / attributed to the transport source")
 	}
@@ -277,7 +285,7 @@ func (r *rbcModel) countingArgument(c *Ctx) string {
 			if r.isSelfID(key) {
 				selfSeen = true
 				stored := false
-				for _, st := range storesToField([]*ssa.Function{mu.Parent()}, r.fEntryM) {
+				for _, st := range storesToField(deepFuncs(rootOfHelper(mu.Parent())), r.fEntryM) {
 					k := r.receptionKeyOf(st.Addr)
 					if k != nil && sameValue(k, r.receptionKeyOf(mu.Map)) && sc.Resolve(st.Val) == ssa.Value(r.paramM) && r.storeUnconditionalIn(sc, st) {
 						// the store happens on every path of this context: guarded only by msg != nil
@@ -362,6 +370,14 @@ func (r *rbcModel) countingArgument(c *Ctx) string {
 // in a context whose message argument is Receive's (already dereferenced) m,
 // and the store's block post-dominates nothing else conditional (all guards listed).
 func (r *rbcModel) storeUnconditionalIn(sc SiteCtx, st *ssa.Store) bool {
+	// the insertion as seen from the function that holds the store (the insertion may sit in a small
+	// helper of it: `entry.idSet.add(from)`)
+	site := sc.Site
+	if site.Parent() != st.Parent() {
+		if l := liftTo(site, st.Parent()); l != nil {
+			site = l
+		}
+	}
 	for _, g := range GuardsOf(st) {
 		f := factOf(g)
 		if f.Op == token.NEQ {
@@ -375,7 +391,7 @@ func (r *rbcModel) storeUnconditionalIn(sc SiteCtx, st *ssa.Store) bool {
 		}
 		// guards shared with the voucher insertion itself (e.g. the conflicting-digest exit) are fine:
 		shared := false
-		for _, g2 := range GuardsOf(sc.Site) {
+		for _, g2 := range GuardsOf(site) {
 			if g2.If == g.If && g2.Arm == g.Arm {
 				shared = true
 			}
@@ -388,6 +404,74 @@ func (r *rbcModel) storeUnconditionalIn(sc SiteCtx, st *ssa.Store) bool {
 	// comes after it: the store's block must dominate or be dominated by the insertion's block
 	// modulo the msg != nil diamond; approximate by requiring the guard set check above plus
 	// reachability of one from the other.
-	sb, ib := st.Block(), sc.Site.Block()
+	if site.Parent() != st.Parent() {
+		return false
+	}
+	sb, ib := st.Block(), site.Block()
 	return sb == ib || blockReaches(sb, ib, nil) || blockReaches(ib, sb, nil)
+}
+
+// ruleRBCMonotone (C03.M1 = C02.M1): the receiver's records only grow.  "At most once per sender and
+// round" and "no two honest parties accept different payloads" both rest on records that are permanent:
+// the digest pinned for a (sender, round), the reception entries with their voucher sets and delivered
+// flag, and the sticky equivocation flag.  Decided: nothing is ever deleted from the pin table or the
+// reception table; the tables are replaced only where they are found nil (first use); the delivered flag
+// and the equivocation flag are never stored anything but true.  A pin removed at delivery lets a second,
+// different payload of the same sender and round be registered, vouched for and handed over as well.
+func ruleRBCMonotone(c *Ctx, r *rbcModel, rule string) {
+	c.Rule(rule, "receiver records are permanent: no delete from the pin/reception tables, tables replaced only when nil, flags only set", 3)
+	n := 0
+	delivered := r.deliveredFlag()
+	for _, fn := range r.fns {
+		for _, in := range instrsOf(fn) {
+			switch x := in.(type) {
+			case ssa.CallInstruction:
+				bi, ok := x.Common().Value.(*ssa.Builtin)
+				if !ok || bi.Name() != "delete" || len(x.Common().Args) != 2 {
+					continue
+				}
+				for _, f := range []*types.Var{r.fPinned, r.fReception} {
+					if isLoadOfField(x.Common().Args[0], f) {
+						n++
+						c.Bad(rule, FuncName(fn), "delete from "+f.Name(), r.m.Pos(in.Pos()),
+							"a record of the receiver is removed: once the pinned digest (or the reception entry with its delivered flag) of a (sender, round) is gone, a different payload of the same sender and round is no longer recognised as conflicting (or as already delivered) — it collects vouchers and is handed over as well")
+					}
+				}
+				// the voucher set of an entry
+				if _, fld, isF := fieldLoad(strip(x.Common().Args[0])); isF && fld == r.fEntryIDSet {
+					n++
+					c.Bad(rule, FuncName(fn), "delete from a voucher set", r.m.Pos(in.Pos()), "vouchers are removed from a reception entry: the count can reach the quorum again")
+				}
+			case *ssa.Store:
+				fa, ok := x.Addr.(*ssa.FieldAddr)
+				if !ok {
+					continue
+				}
+				f := fieldOfAddr(fa)
+				switch {
+				case f == r.fPinned || f == r.fReception:
+					n++
+					okNil := hasFact(FactsAt(x), func(ft Fact) bool {
+						return ft.Op == token.EQL && ((isLoadOfField(ft.X, f) && isNilConst(ft.Y)) || (isLoadOfField(ft.Y, f) && isNilConst(ft.X)))
+					})
+					// (both tables are made together under the nil test of one of them)
+					if !okNil {
+						okNil = hasFact(FactsAt(x), func(ft Fact) bool {
+							return ft.Op == token.EQL && (isNilConst(ft.Y) || isNilConst(ft.X)) && (isLoadOfField(ft.X, r.fPinned) || isLoadOfField(ft.X, r.fReception) || isLoadOfField(ft.Y, r.fPinned) || isLoadOfField(ft.Y, r.fReception))
+						})
+					}
+					c.Check(okNil, rule, FuncName(fn), "store to Receiver."+f.Name(), r.m.Pos(x.Pos()), "on the arm where the table was found nil (first use)",
+						"a record table of the receiver is replaced although it may hold records: pins / reception entries are forgotten")
+				case f == r.fEquiv || (delivered != nil && f == delivered):
+					n++
+					k, isK := x.Val.(*ssa.Const)
+					c.Check(isK && k.Value != nil && k.Value.String() == "true", rule, FuncName(fn), "store to "+f.Name(), r.m.Pos(x.Pos()), "stores true",
+						"a flag of the receiver that must stay set once it is set is stored something other than true")
+				}
+			}
+		}
+	}
+	if n == 0 {
+		c.Bad(rule, "rbc", "receiver records", "-", "no store to the receiver's tables or flags found (model went blind)")
+	}
 }
